@@ -244,7 +244,7 @@ func c11Cases(seed int64, tier string) []*c11Case {
 	pool := c10Pool()
 	var progs []*c10Prog
 	progs = append(progs, pool...)
-	n := 70
+	n := 100
 	if tier == "thorough" {
 		n = 1500
 	}
